@@ -28,7 +28,7 @@ RULE = ("natural random stream only.  Six closed-form configurations derived fro
         "simulated in chunks of 100 exact paths, plus a pool of seeded random time-homogeneous event models.  Per "
         "configuration: (1) PIT of every recorded exponential clock in 20 bins, (2) PIT of holding times against the total "
         "reference rate in 20 bins and Azuma-Hoeffding bound on sum(1{event j fired} - a_j/a_0) per event slot, (3) exact "
-        "binomial regions for pooled chain occupancy at time t against expm(Qt) and for SIR final size against the "
+        "binomial regions for pooled chain occupancy at time t against expm(Qt), for the distribution over paths of each stage's occupancy (Binomial(N, p) per path, groups of probability >= 0.1) and for SIR final size against the "
         "embedded-jump-chain pmf (every other path observed through gridded output instead of the raw path); per-step refinement of the first-reaction method on every path.  non-trivial = a run that "
         "simulated >= 50 exact steps; distinct = distinct case digests")
 MEASURE = "distinct (configuration kind, population, number of events) tuples"
@@ -156,6 +156,7 @@ def run_chunk(case):
     choice_sum = np.zeros(8)
     choice_n = np.zeros(8, int)
     occ = None
+    occ_paths = []
     finals = []
     sess = jump.Session(jcase)
     try:
@@ -187,6 +188,7 @@ def run_chunk(case):
                         pit[min(NBINS - 1, int(u * NBINS))] += 1
                 if kind == "chain":
                     occ = Xg[1].copy() if occ is None else occ + Xg[1]
+                    occ_paths.append([int(round(v)) for v in Xg[1]])
                 else:
                     finals.append(int(round(Xg[-1][2])))
                     if Xg[-1][1] != 0:
@@ -231,6 +233,7 @@ def run_chunk(case):
                 idx = int(np.searchsorted(T, t0 + cfg["t"], side="right")) - 1
                 st_ = X[max(idx, 0)]
                 occ = st_.copy() if occ is None else occ + st_
+                occ_paths.append([int(round(v)) for v in st_])
             elif kind == "sir":
                 finals.append(int(round(X[-1][2])))
                 if X[-1][1] != 0:
@@ -239,7 +242,7 @@ def run_chunk(case):
         sess.close()
     payload = {"cfg": cfg["id"], "pit": pit.tolist(), "hold": hold.tolist(), "choice_sum": choice_sum.tolist(),
                "choice_n": choice_n.tolist(), "occ": None if occ is None else occ.tolist(), "paths": int(case["paths"]),
-               "finals": finals}
+               "finals": finals, "occ_paths": occ_paths}
     return out, stats, payload, log
 
 
@@ -291,6 +294,40 @@ def test_pooled(cfg, payloads, alpha_each):
                     fails.append(core.fail("C05.law.occupancy", s_, "configuration %s: stage %d holds %d of %d individuals at t=%r, expm(Qt) gives p=%.6f, exact region [%d, %d]" % (
                         cfg["id"], s_ + 1, int(occ[s_]), n, cfg["t"], float(p_), lo, hi)))
                     break
+        # the occupancy of one stage in ONE path is Binomial(N, p): its whole distribution over paths (not only the
+        # pooled mean) - groups of values with probability >= 0.1 each, fixed by the law, exact binomial region per group
+        paths = [v for p in payloads for v in p.get("occ_paths", [])]
+        Rp = len(paths)
+        summary["chain_paths"] = Rp
+        if Rp >= 200 and not fails:
+            Nn = int(cfg["N"])
+            for s_, p_ in enumerate(probs):
+                p_ = float(min(max(p_, 0.0), 1.0))
+                pmf = scipy.stats.binom.pmf(np.arange(Nn + 1), Nn, p_)
+                groups, acc, cur = [], 0.0, []
+                for v_ in range(Nn + 1):
+                    cur.append(v_)
+                    acc += pmf[v_]
+                    if acc >= 0.1:
+                        groups.append((cur, acc))
+                        cur, acc = [], 0.0
+                if cur:
+                    if groups:
+                        groups[-1] = (groups[-1][0] + cur, groups[-1][1] + acc)
+                    else:
+                        groups.append((cur, acc))
+                if len(groups) < 2:
+                    continue
+                vals = np.array([pp[s_] for pp in paths])
+                for members, gp in groups[:6]:
+                    c_ = int(np.sum((vals >= members[0]) & (vals <= members[-1])))
+                    lo, hi = binom_region(Rp, float(min(gp, 1.0)), alpha_each)
+                    if not (lo <= c_ <= hi):
+                        fails.append(core.fail("C05.law.occupancy_dist", s_, "configuration %s: in %d of %d paths stage %d holds %d..%d individuals at t=%r; Binomial(%d, %.5f) gives probability %.5f, exact region [%d, %d]" % (
+                            cfg["id"], c_, Rp, s_ + 1, members[0], members[-1], cfg["t"], Nn, p_, gp, lo, hi)))
+                        break
+                if fails:
+                    break
     if cfg["kind"] == "sir":
         finals = [f for p in payloads for f in p["finals"]]
         R = len(finals)
@@ -318,12 +355,12 @@ def test_pooled(cfg, payloads, alpha_each):
                     fails.append(core.fail("C05.law.finalsize", members[0], "configuration %s: final sizes %d..%d occurred %d times in %d runs, jump-chain probability %.5f, exact region [%d, %d]" % (
                         cfg["id"], members[0], members[-1], c_, R, p_, lo, hi)))
                     break
-    ntests = 2 * NBINS + 8 + 12
+    ntests = 2 * NBINS + 8 + 12 + 24
     return fails, ntests, summary
 
 
 def alpha_each():
-    return ALPHA / (NCONF * (2 * NBINS + 8 + 12))
+    return ALPHA / (NCONF * (2 * NBINS + 8 + 12 + 24))
 
 
 def execute(case):
